@@ -372,9 +372,16 @@ def _compile(src, obj, flags, includes, stamp_inputs):
             h.update(b"<missing>")
     digest = h.hexdigest()
     stamp = pathlib.Path(str(obj) + ".stamp")
+    failstamp = pathlib.Path(str(obj) + ".failed")
     try:
         if obj.exists() and stamp.read_text() == digest:
             return True, "", 0.0, True
+    except OSError:
+        pass
+    try:
+        cached = failstamp.read_text()
+        if cached.startswith(digest + "\n"):
+            return False, cached[len(digest) + 1:], 0.0, True
     except OSError:
         pass
     t0 = time.monotonic()
@@ -391,12 +398,18 @@ def _compile(src, obj, flags, includes, stamp_inputs):
     dt = time.monotonic() - t0
     if ok:
         stamp.write_text(digest)
+        try:
+            failstamp.unlink()
+        except OSError:
+            pass
     else:
         for q in (obj, stamp):
             try:
                 q.unlink()
             except OSError:
                 pass
+        if err != "g++ timeout":
+            failstamp.write_text(digest + "\n" + err)
     return ok, err, dt, False
 
 
